@@ -76,6 +76,30 @@ func (c *C) freshValue(v ssa.Value, depth int, seen map[ssa.Value]bool) bool {
 	switch x := v.(type) {
 	case *ssa.Alloc:
 		return x.Heap
+	case *ssa.Const:
+		return x.IsNil() // nil is nobody's container: storing it aliases nothing
+	case *ssa.Extract:
+		// result k of a first-party helper: fresh when every value the helper returns there is
+		call, ok := x.Tuple.(*ssa.Call)
+		if !ok {
+			return false
+		}
+		cf := call.Call.StaticCallee()
+		if cf == nil || !firstParty(cf) || cf.Blocks == nil {
+			return false
+		}
+		for _, b := range cf.Blocks {
+			for _, in := range b.Instrs {
+				if ret, ok := in.(*ssa.Return); ok && len(ret.Results) > x.Index {
+					for _, rv := range retResults(ret)[x.Index] {
+						if !c.freshValue(rv, depth+1, map[ssa.Value]bool{}) {
+							return false
+						}
+					}
+				}
+			}
+		}
+		return true
 	case *ssa.MakeInterface:
 		return c.freshValue(x.X, depth+1, seen)
 	case *ssa.ChangeInterface:
